@@ -44,7 +44,7 @@ pub fn run(ctx: &Ctx) -> Report {
 	let mut total = Report::new();
 	total.rule = "RAW: every string of <= n tokens over {a : / ? # @ 1 %41 . [ ] (é)} (+decoys in thorough) accepted by the reference URI-/IRI-reference DFA; REF: compositions scheme x AUTH x PATH x query x fragment that re-split to the chosen components; one case = one reference text through accessors, parts(), borrowed and owned, reference and non-reference type; non-trivial = distinct valid text".into();
 	let raw_n = ctx.pick(7usize, 8usize);
-	for f in Family::BOTH {
+	for f in Family::active() {
 		let fr = FamRefs::new(refs, f);
 		let alpha = domains::raw_alphabet(f, 0);
 		let shards = domains::raw_shard_count(alpha.len());
@@ -220,7 +220,7 @@ pub fn run_c03(ctx: &Ctx) -> Report {
 	let mut total = Report::new();
 	total.rule = "every string of <= n tokens over {a 1 : @ [ ] . %41 v (é)} accepted by the reference authority DFA, plus the product AUTH = userinfo x host x port, each stand-alone and embedded in s://A/p?q#f, //A and s://A; one case = accessors and parts() on one authority; non-trivial = distinct (text, embedding)".into();
 	let n = ctx.pick(7usize, 8usize);
-	for f in Family::BOTH {
+	for f in Family::active() {
 		let fr = FamRefs::new(refs, f);
 		let alpha = auth_alphabet(f);
 		let shards = domains::raw_shard_count(alpha.len());
